@@ -224,6 +224,13 @@ func e2Programs(thorough bool) []*c04Prog {
 				src := "import (\n\t\"github.com/mazrean/kessoku\"\n)\n\n" + body.String() + inject
 				out = append(out, &c04Prog{Family: "E2", Name: "name " + n + " (" + shape + ") " + mode, Files: map[string]string{"k.go": src}, Invoke: [][]string{{"k.go"}},
 					Pre: "name=" + n + ",shape=" + shape + ",mode=" + mode})
+				if shape == "pkg-ident" {
+					// the same file in a SECOND PACKAGE of the same package name (another directory), generated in one
+					// invocation after a file of the first: each package's own identifiers must still be respected
+					pre := "import (\n\t\"github.com/mazrean/kessoku\"\n)\n\ntype PreA struct{ A int }\ntype PreB struct{ A int }\n\nfunc NewPreA() *PreA { return &PreA{} }\n\nfunc NewPreB(a *PreA) *PreB { return &PreB{} }\n\nvar _ = kessoku.Inject[*PreB](\"InitPre\", kessoku.Provide(NewPreA), kessoku.Provide(NewPreB))\n"
+					out = append(out, &c04Prog{Family: "E2", Name: "name " + n + " (pkg-ident, in a second package of the same name in one invocation) " + mode, Files: map[string]string{"a_first.go": pre, "sub/k.go": src}, Invoke: [][]string{{"a_first.go", "sub/k.go"}},
+						Pre: "name=" + n + ",shape=second-package,mode=" + mode})
+				}
 				if shape == "type" {
 					// the same file as the SECOND file of one invocation (the allocator is shared across files)
 					pre := "import (\n\t\"github.com/mazrean/kessoku\"\n)\n\ntype PreA struct{ A int }\ntype PreB struct{ A int }\n\nfunc NewPreA() *PreA { return &PreA{} }\n\nfunc NewPreB(a *PreA) *PreB { return &PreB{} }\n\nvar _ = kessoku.Inject[*PreB](\"InitPre\", kessoku.Provide(NewPreA), kessoku.Provide(NewPreB))\n"
@@ -453,6 +460,7 @@ func runC04(args []string) {
 		pd := filepath.Join(dir, "o", p.pkg)
 		must(os.MkdirAll(pd, 0o755))
 		for name, src := range p.Files {
+			must(os.MkdirAll(filepath.Dir(filepath.Join(pd, name)), 0o755))
 			must(os.WriteFile(filepath.Join(pd, name), []byte("package "+p.pkg+"\n\n"+src), 0o644))
 		}
 		for _, inv := range p.Invoke {
@@ -517,7 +525,11 @@ func runC04(args []string) {
 				distinctTexts[string(b)] = true
 			}
 		}
-		if msg, bad := errs[p.pkg]; bad {
+		msg, bad := errs[p.pkg]
+		if !bad {
+			msg, bad = errs[p.pkg+"/sub"] // a second package of the same name below the first one
+		}
+		if bad {
 			d := firstDiag(msg)
 			if !strings.Contains(d, "_band.go") && !strings.Contains(d, "zz_assert.go") {
 				// the user's own file does not compile: not an input the property speaks about
